@@ -237,6 +237,70 @@ func (m *c01Must) must(v ssa.Value) c01Set {
 	return s
 }
 
+// viaProducer: the value is an iterator (func(yield)) returned by a module
+// function; it holds whatever the arguments hold that flow into a yield call.
+func (m *c01Must) viaProducer(call *ssa.Call) (c01Set, bool) {
+	g := StaticCallee(call)
+	if g == nil || !inModule(g) || len(g.Blocks) == 0 || g.Signature.Results().Len() != 1 {
+		return c01Set{}, false
+	}
+	if _, isFn := g.Signature.Results().At(0).Type().Underlying().(*types.Signature); !isFn {
+		return c01Set{}, false
+	}
+	var prod *ssa.Function
+	for _, r := range Returns(g) {
+		if f, _ := c01FuncOfValue(r.Results[0]); f != nil {
+			prod = f
+		}
+	}
+	if prod == nil || len(prod.Params) == 0 {
+		return c01Set{}, false
+	}
+	var yields []ssa.Value
+	var scan func(f *ssa.Function, yv ssa.Value)
+	scan = func(f *ssa.Function, yv ssa.Value) {
+		for _, c2 := range Calls(f, func(string) bool { return true }) {
+			cc := c2.Common()
+			if cc.IsInvoke() {
+				continue
+			}
+			isYield := cc.Value == yv
+			if ld, ok := cc.Value.(*ssa.UnOp); ok && ld.Op == token.MUL {
+				// yield captured by a nested closure / spilled
+				if c01Slice(ld, func(x ssa.Value) bool { return x == ssa.Value(prod.Params[0]) }) {
+					isYield = true
+				}
+			}
+			if isYield {
+				yields = append(yields, cc.Args...)
+			}
+		}
+		for _, a := range f.AnonFuncs {
+			scan(a, yv)
+		}
+	}
+	scan(prod, prod.Params[0])
+	if len(yields) == 0 {
+		return c01Set{}, false
+	}
+	out := c01Set{m: map[string]bool{}}
+	for i, prm := range g.Params {
+		if i >= len(call.Call.Args) {
+			break
+		}
+		flows := false
+		for _, y := range yields {
+			if c01Slice(y, func(x ssa.Value) bool { return x == ssa.Value(prm) }) {
+				flows = true
+			}
+		}
+		if flows {
+			out = c01Union(out, m.must(call.Call.Args[i]))
+		}
+	}
+	return out, true
+}
+
 // viaHelper: the value is result #0 of a module helper; what the helper returns
 // on every successful path under the same media-type assumption.
 func (m *c01Must) viaHelper(call *ssa.Call) (c01Set, bool) {
@@ -333,6 +397,18 @@ func (m *c01Must) must1(v ssa.Value) c01Set {
 			for _, a := range u.Call.Args[1:] {
 				s = c01Union(s, m.must(a))
 			}
+			return s
+		}
+		switch CalleeName(u) {
+		case "slices.Collect", "slices.Concat", "slices.Values", "slices.Clone", "slices.AppendSeq", "slices.Sorted":
+			// order-preserving combinators: the result holds what the operands hold
+			s := empty
+			for _, a := range u.Call.Args {
+				s = c01Union(s, m.must(a))
+			}
+			return s
+		}
+		if s, ok := m.viaProducer(u); ok {
 			return s
 		}
 		if s, ok := m.viaHelper(u); ok {
@@ -509,8 +585,10 @@ func c01R2(c *Ctx) {
 	c.Expect(R, 2)
 	c.Expect(RF, 5)
 	var ts []*ssa.Function
+	entryOf := map[*ssa.Function]*ssa.Function{}
 	for _, tr := range c01Traversals(c.P) {
 		ts = append(ts, tr.Body)
+		entryOf[tr.Body] = tr.Entry
 	}
 	if len(ts) == 0 {
 		c.LostAnchor(R, "traversal closure (calls Tracker.TryCommit and syncutil.Go) in package ~")
@@ -532,9 +610,39 @@ func c01R2(c *Ctx) {
 		v := S
 		steps := 0
 		var src *ssa.Call
+		owner := T // the function whose node parameter the lookup must be about
 		for v != nil && steps < 8 {
 			steps++
 			rs := Roots(v)
+			// the dispatching function may receive the (filtered) list from the claiming function
+			if len(rs) == 1 {
+				if prm, isParam := rs[0].(*ssa.Parameter); isParam && prm.Parent() == owner && entryOf[T] != nil && entryOf[T] != owner {
+					var sites []ssa.CallInstruction
+					for _, call := range Calls(entryOf[T], func(string) bool { return true }) {
+						callee := StaticCallee(call)
+						if callee == nil && !call.Common().IsInvoke() {
+							callee, _ = c01FuncOfValue(call.Common().Value)
+						}
+						if callee == owner {
+							sites = append(sites, call)
+						}
+					}
+					idx := -1
+					for i, q := range owner.Params {
+						if q == prm {
+							idx = i
+						}
+					}
+					if len(sites) == 1 && idx >= 0 {
+						off := len(owner.Params) - len(sites[0].Common().Args) // bound method value: receiver is not an argument
+						if idx-off >= 0 && idx-off < len(sites[0].Common().Args) {
+							v = sites[0].Common().Args[idx-off]
+							owner = entryOf[T]
+							continue
+						}
+					}
+				}
+			}
 			if len(rs) != 1 {
 				c.Undecided(R, tn+"|successors-origin", gos[0].Pos(), "the dispatched successors slice has several reaching definitions")
 				v = nil
@@ -570,7 +678,7 @@ func c01R2(c *Ctx) {
 		if ok {
 			last := src.Call.Args[len(src.Call.Args)-1]
 			prm := c01ParamOf(last)
-			ok = prm != nil && prm.Parent() == T && c01IsOCIDescriptor(prm.Type())
+			ok = prm != nil && prm.Parent() == owner && c01IsOCIDescriptor(prm.Type())
 		}
 		c.Check(R, tn+"|successors-origin", gos[0].Pos(), ok,
 			ifelse(ok, "the dispatched slice is opts.FindSuccessors(ctx, proxy, desc) for the node being copied, passed through recognised filters only",
@@ -673,10 +781,47 @@ func boolConst(k *ssa.Const) bool {
 // c01CheckForeignFilter: g(descs) keeps every element that is not a foreign layer.
 func c01CheckForeignFilter(c *Ctx, R string, g *ssa.Function) {
 	gn := FnName(g)
+	// library forms: slices.DeleteFunc(param, IsForeignLayer) is the filter itself
+	isForeignFn := func(v ssa.Value) bool {
+		f, _ := c01FuncOfValue(v)
+		return f != nil && fnFullName(f) == nIsForeign
+	}
+	allDelete := len(Returns(g)) > 0
+	for _, rt := range Returns(g) {
+		call, isCall := rt.Results[0].(*ssa.Call)
+		if !isCall || CalleeName(call) != "slices.DeleteFunc" || len(call.Call.Args) != 2 || !c01SameStrip(call.Call.Args[0], g.Params[0]) || !isForeignFn(call.Call.Args[1]) {
+			allDelete = false
+		}
+	}
+	if allDelete {
+		c.OK(R, gn+"|keeps-non-foreign", g.Pos(), "the result is slices.DeleteFunc(descs, descriptor.IsForeignLayer): exactly the foreign layers are dropped")
+		c.OK(R, gn+"|compaction-writes-current-element", g.Pos(), "compaction is done by slices.DeleteFunc")
+		c.Exists(R, gn+"|asks|"+nIsForeign, g.Pos(), true, "filter predicate is descriptor.IsForeignLayer")
+		return
+	}
+	// prefix idiom: first := slices.IndexFunc(descs, IsForeignLayer); keep descs[:first], filter descs[first+1:]
+	var firstForeign *ssa.Call
+	for _, call := range CallsTo(g, "slices.IndexFunc") {
+		if len(call.Common().Args) == 2 && c01SameStrip(call.Common().Args[0], g.Params[0]) && isForeignFn(call.Common().Args[1]) {
+			firstForeign, _ = call.(*ssa.Call)
+		}
+	}
+	var ranged ssa.Value = g.Params[0]
 	var loop *Loop
 	for _, l := range Loops(g) {
-		if rg, _, _, _, ok := c01ElemLoop(l); ok && c01SameStrip(rg, g.Params[0]) {
+		rg, _, _, _, ok := c01ElemLoop(l)
+		if !ok {
+			continue
+		}
+		if c01SameStrip(rg, g.Params[0]) {
 			loop = l
+		} else if sl, isSl := strip(rg).(*ssa.Slice); isSl && firstForeign != nil && c01SameStrip(sl.X, g.Params[0]) && sl.High == nil {
+			// descs[first+1:]
+			if inc, isInc := sl.Low.(*ssa.BinOp); isInc && inc.Op == token.ADD && inc.X == ssa.Value(firstForeign) {
+				if k, isK := constInt(inc.Y); isK && k == 1 {
+					loop, ranged = l, rg
+				}
+			}
 		}
 	}
 	if loop == nil || len(Loops(g)) != 1 {
@@ -692,7 +837,7 @@ func c01CheckForeignFilter(c *Ctx, R string, g *ssa.Function) {
 				return false
 			}
 			ia, ok := ld.X.(*ssa.IndexAddr)
-			if !ok || !c01SameStrip(ia.X, g.Params[0]) || ia.Index != idx {
+			if !ok || !c01SameStrip(ia.X, ranged) || ia.Index != idx {
 				return false
 			}
 		}
@@ -737,8 +882,48 @@ func c01CheckForeignFilter(c *Ctx, R string, g *ssa.Function) {
 			} else {
 				okRet = false
 			}
+		case *ssa.Parameter:
+			// prefix idiom: nothing foreign at all (first < 0) -> the list is returned as is
+			okEarly := false
+			if firstForeign != nil && u == g.Params[0] {
+				for _, i := range Ifs(g) {
+					cond, t, f := ifEdges(i)
+					bo, isBo := cond.(*ssa.BinOp)
+					if !isBo || bo.X != ssa.Value(firstForeign) {
+						continue
+					}
+					k, isK := constInt(bo.Y)
+					var neg Edge
+					switch {
+					case isK && bo.Op == token.LSS && k == 0, isK && bo.Op == token.EQL && k == -1, isK && bo.Op == token.LEQ && k == -1:
+						neg = t
+					case isK && bo.Op == token.GEQ && k == 0, isK && bo.Op == token.NEQ && k == -1, isK && bo.Op == token.GTR && k == -1:
+						neg = f
+					default:
+						continue
+					}
+					if MustPass(rt, newCut().Edges(neg)) {
+						okEarly = true
+					}
+				}
+			}
+			if !okEarly {
+				okRet = false
+			}
 		default:
 			okRet = false
+		}
+	}
+	if acc != nil && firstForeign != nil && ranged != ssa.Value(g.Params[0]) {
+		// the accumulator must start as the prefix before the first foreign layer
+		for i, ev := range acc.Edges {
+			if loop.Blocks[header.Preds[i]] {
+				continue
+			}
+			sl, isSl := strip(ev).(*ssa.Slice)
+			if !isSl || !c01SameStrip(sl.X, g.Params[0]) || sl.Low != nil || sl.High != ssa.Value(firstForeign) {
+				okRet = false
+			}
 		}
 	}
 	if acc == nil || !okRet {
@@ -941,11 +1126,18 @@ func c01RefDefault(fn *ssa.Function, v ssa.Value, srcRef, dstRef *ssa.Parameter)
 // c01RefParamOf: in callee g, the index of the string parameter that reaches
 // PushReference's reference argument (or -1).
 func c01RefParamOf(g *ssa.Function) int {
-	for _, call := range Calls(g, func(n string) bool { return n == nPushRef || c01TagInvokes[n] }) {
-		args := call.Common().Args
-		for i, p := range g.Params {
-			for _, r := range Roots(args[len(args)-1]) {
-				if r == ssa.Value(p) {
+	fns := append([]*ssa.Function{g}, Anons(g)...) // the effect may sit in a closure g hands to a transfer helper
+	for _, f := range fns {
+		for _, call := range Calls(f, func(n string) bool { return n == nPushRef || c01TagInvokes[n] }) {
+			args := call.Common().Args
+			last := args[len(args)-1]
+			for i, p := range g.Params {
+				for _, r := range Roots(last) {
+					if r == ssa.Value(p) {
+						return i
+					}
+				}
+				if f != g && c01P != nil && c01CarriedFrom(c01P, last, p) {
 					return i
 				}
 			}
@@ -1090,14 +1282,10 @@ func c01R4(c *Ctx) {
 		}
 	}
 	mapped := false
-	if prepRoot != nil {
-		for _, r := range Roots(prepRoot) {
-			if ex, ok := r.(*ssa.Extract); ok && ex.Index == 0 {
-				if call, ok := ex.Tuple.(*ssa.Call); ok && CalleeName(call) == "field:~.CopyOptions.MapRoot" {
-					mapped = true
-				}
-			}
-		}
+	if mrVar := c01FieldOf(c.P, "", "CopyOptions", "MapRoot"); prepRoot != nil && mrVar != nil {
+		// the root handed on is (on the MapRoot path) the result of calling the MapRoot option — directly, or through a
+		// helper that receives the option value
+		mapped = c01Slice(prepRoot, func(x ssa.Value) bool { return c01IsFieldValue(x, mrVar) })
 	}
 	c.Check(R, "~.Copy|one-root-prepared-copied-returned", Copy.Pos(), okD && nSucc > 0 && mapped,
 		ifelse(okD && mapped, "the descriptor returned on success is the value handed to the hook installer and to the graph copy, and it is MapRoot's result when MapRoot is set",
@@ -1254,11 +1442,63 @@ func c01R4(c *Ctx) {
 				pa, pb := c01ParamOf(a) != nil, c01ParamOf(b) != nil
 				return (pa && capturedFrom(b, rootParam)) || (pb && capturedFrom(a, rootParam))
 			})
+			isRefV := func(v ssa.Value) bool { return capturedFrom(v, refParam) }
 			if len(eqT) == 0 {
-				c.Undecided(R, key, W.Pos(), "no content.Equal(desc, root) test recognised in the "+inst.role+" wrapper: cannot tell the root path from the others")
+				// the root test may sit in a helper the wrapper always calls with its own node:
+				// tagIfRoot(ctx, desc) { if !Equal(desc, root) { return nil }; tag }
+				var condTags []ssa.Instruction
+				for _, call := range Calls(W, func(string) bool { return true }) {
+					if _, isDefer := call.(*ssa.Defer); isDefer || call.Common().IsInvoke() {
+						continue
+					}
+					h := StaticCallee(call)
+					if h == nil {
+						h, _ = c01FuncOfValue(call.Common().Value)
+					}
+					if h == nil || !inModule(h) || len(h.Blocks) == 0 {
+						continue
+					}
+					own := false
+					for _, a := range call.Common().Args {
+						if c01IsOCIDescriptor(a.Type()) && c01ParamOf(a) != nil {
+							own = true
+						}
+					}
+					if !own {
+						continue
+					}
+					hEq, _, _ := CallTests(h, "~/content.Equal", func(ec *ssa.Call) bool {
+						a, b := ec.Call.Args[0], ec.Call.Args[1]
+						pa, pb := c01ParamOf(a) != nil, c01ParamOf(b) != nil
+						return (pa && capturedFrom(b, rootParam)) || (pb && capturedFrom(a, rootParam))
+					})
+					hTags := c01TagEffects(h, isRefV)
+					good := len(hEq) > 0 && len(hTags) > 0
+					for _, e := range hEq {
+						if c01SuccessReturnFrom(h, e, newCut().Instr(hTags...), nil) != nil {
+							good = false
+						}
+					}
+					if good {
+						condTags = append(condTags, call.(ssa.Instruction))
+					}
+				}
+				if len(condTags) == 0 {
+					c.Undecided(R, key, W.Pos(), "no content.Equal(desc, root) test recognised in the "+inst.role+" wrapper (nor in a helper it hands its node to): cannot tell the root path from the others")
+					continue
+				}
+				okAll := true
+				for _, r := range Returns(W) {
+					if !c01IsErrorReturn(r, ErrResultIndex(W.Signature)) && !MustPass(r, newCut().Instr(condTags...)) {
+						okAll = false
+					}
+				}
+				c.Check(R, key, W.Pos(), okAll,
+					ifelse(okAll, "every successful return of the wrapper follows the call of a helper that tags the node when it is the root", "the "+inst.role+" wrapper can report success without calling the helper that tags the root"))
+				c.OK(R, pn+"$"+inst.role+"|tags-the-root-descriptor", W.Pos(), "the helper receives the wrapper's own node")
 				continue
 			}
-			tags := c01TagEffects(W, func(v ssa.Value) bool { return capturedFrom(v, refParam) })
+			tags := c01TagEffects(W, isRefV)
 			var bad *ssa.Return
 			for _, e := range eqT {
 				if r := c01SuccessReturnFrom(W, e, newCut().Instr(tags...), map[string]bool{"~.SkipNode": true}); r != nil {
@@ -1292,13 +1532,35 @@ func c01R4(c *Ctx) {
 	for _, tr := range c01Traversals(c.P) {
 		T := tr.Body
 		tn := c01ClosureKey(T, "traverse")
+		if tr.Entry != tr.Body {
+			// the existence test sits in whichever of the two traversal functions asks dst.Exists about its own node
+			for _, call := range Calls(tr.Entry, func(n string) bool { return n == "(~/content.ReadOnlyStorage).Exists" }) {
+				if prm := c01ParamOf(call.Common().Args[len(call.Common().Args)-1]); prm != nil && prm.Parent() == tr.Entry {
+					T = tr.Entry
+				}
+			}
+		}
 		var existsTrue, existsFalse []Edge
 		for _, call := range Calls(T, func(n string) bool { return n == "(~/content.ReadOnlyStorage).Exists" }) {
 			prm := c01ParamOf(call.Common().Args[len(call.Common().Args)-1])
 			if prm == nil || prm.Parent() != T {
 				continue
 			}
-			if len(CallsTo(T, nGo)) > 0 && !Dominates(call.(ssa.Instruction), CallsTo(T, nGo)[0].(ssa.Instruction)) {
+			// the cache-existence check comes after the dispatch (the syncutil.Go call, or the call of the function holding it)
+			var dispatch []ssa.CallInstruction
+			dispatch = append(dispatch, CallsTo(T, nGo)...)
+			if T != tr.Body {
+				for _, dc := range Calls(T, func(string) bool { return true }) {
+					callee := StaticCallee(dc)
+					if callee == nil && !dc.Common().IsInvoke() {
+						callee, _ = c01FuncOfValue(dc.Common().Value)
+					}
+					if callee == tr.Body {
+						dispatch = append(dispatch, dc)
+					}
+				}
+			}
+			if len(dispatch) > 0 && !Dominates(call.(ssa.Instruction), dispatch[0].(ssa.Instruction)) {
 				continue // the cache-existence check after the wait
 			}
 			if v := ResultOf(call, 0); v != nil {
